@@ -28,7 +28,7 @@ CLAIMED = {
  'C07': dict(text='node_safe: for every group-function reaction satisfying an explicit contract (proved for the no-op instance and for the library model gf_lib), every cold node and EVERY operation list (arbitrary frames, DLC 0..8, '
                   'polls, ticks, sends): the model never indexes Devices[]/N2kCANMsgBuf[] out of range (sticky r_oob flag), never delivers more than 223 bytes, keeps its slot and queue invariants; one poll consumes at most 20 '
                   'frames; fuelled loops are fuel-independent.  The device-list half is heap_safe (no use of a freed entry, no index outside Sources[], every history), re-exported as C07_devlist_heap_safe.  Tied to the C++ by protocol-grammar fuzz, complete group-function traffic and device-list histories under ASan/UBSan with the library arrays relocated between inaccessible pages.',
-             note=TB + 'Partial by nature: the theorem is about the abstract memory of the model; real memory safety of the C++ is evidenced by the sanitizer correspondence on the sampled histories, not proved.',
+             note=TB + 'Partial by nature: the theorem is about the abstract memory of the model; real memory safety of the C++ is evidenced by the sanitizer correspondence on the sampled histories, not proved.  The 20-frames-per-poll bound is stated for an open node: while the node waits out its open delay, Open() empties the driver queue on purpose (a loop that ends when the driver has no frame left; modelled as such).',
              design='6 C07', technique='Coq invariant proof over executable model + sanitizer-backed extracted-model/implementation correspondence'),
  'C08': dict(text='Theorems for all 2^24 requested PGNs (one quantifier), every requester and device: addressed requests to a device on the bus are answered with the claim / both PGN lists / product / configuration information '
                   '(payloads equal to reference layouts written from the published definitions) or the handler\'s choice or exactly one NAK to the requester; broadcast requests never originate a NAK; nothing while the claim is '
